@@ -49,13 +49,25 @@ def process_item(item, *sketches, side=None, **kwargs):
             f.write(f"{os.getpid()} {item['idx']}\n")
     mode = item.get("mode", "ok")
     if mode == "raise_before":
-        raise RuntimeError(f"callback refuses item {item['idx']}")
+        # exceptions of several shapes: with a message, without arguments, with a non-string argument, an assert
+        v = item["idx"] % 5 if isinstance(item["idx"], int) else 0
+        if v == 0:
+            raise RuntimeError(f"callback refuses item {item['idx']}")
+        if v == 1:
+            raise KeyError
+        if v == 2:
+            assert False
+        if v == 3:
+            raise ValueError()
+        raise OSError(5, "Input/output error")
     if mode == "die":
         raise WorkerDies(f"worker dies on item {item['idx']}")
     if mode == "exit":
         os._exit(3)
     apply_item(item, sketches)
     if mode == "raise_after":
+        if isinstance(item["idx"], int) and item["idx"] % 2:
+            raise IndexError  # no arguments
         raise ValueError(f"callback fails after updating the sketches with item {item['idx']}")
     return item["ret"]
 
